@@ -40,6 +40,7 @@ type summaryRec struct {
 	Probes     map[string]int    `json:"probes"`
 	Faults     map[string]int    `json:"faults"`
 	Classes    []uint64          `json:"classes"`
+	Cover      []uint64          `json:"cover,omitempty"`
 	Samples    []json.RawMessage `json:"samples"`
 	WallS      float64           `json:"wall_s"`
 	LogHashes  []string          `json:"log_hashes,omitempty"`
@@ -115,6 +116,7 @@ func main() {
 		}
 		sum := summaryRec{Type: "summary", Probes: map[string]int{}, Faults: map[string]int{}, InconclWhy: map[string]int{}}
 		classes := map[uint64]struct{}{}
+		cover := map[uint64]struct{}{}
 		for k := uint64(0); k < *n; k++ {
 			if *budget > 0 && time.Since(t0) > *budget {
 				break
@@ -145,6 +147,9 @@ func main() {
 			for p, c := range res.Probes {
 				sum.Probes[p] += c
 			}
+			for _, c := range res.Cover {
+				cover[c] = struct{}{}
+			}
 			for p, c := range res.Faults {
 				sum.Faults[p] += c
 			}
@@ -170,6 +175,10 @@ func main() {
 			sum.Classes = append(sum.Classes, c)
 		}
 		sort.Slice(sum.Classes, func(i, j int) bool { return sum.Classes[i] < sum.Classes[j] })
+		for c := range cover {
+			sum.Cover = append(sum.Cover, c)
+		}
+		sort.Slice(sum.Cover, func(i, j int) bool { return sum.Cover[i] < sum.Cover[j] })
 		sum.WallS = time.Since(t0).Seconds()
 		b, _ := json.Marshal(sum)
 		w.Write(b)
